@@ -154,7 +154,12 @@ func (c11) Run(e *Env) {
 	e.Settle()
 
 	nSources := e.Range(1, 4)
+	manyHosts := e.Chance(1, 12)
 	sources := make([]string, nSources)
+	if manyHosts {
+		sources = make([]string, 4+e.Range(60, 70)) // the first four take part in the ordinary workload
+		nSources = 4
+	}
 	for i := range sources {
 		sources[i] = fmt.Sprintf("10.9.0.%d", i+1)
 	}
@@ -401,6 +406,7 @@ func (c11) Run(e *Env) {
 		e.Check()
 	}
 
+	forceSrc := "" // set by the burst prelude: an event from exactly this source
 	genOp := func() *c11Op {
 		op := &c11Op{}
 		mkItem := func(src string) *c11Item {
@@ -409,13 +415,16 @@ func (c11) Run(e *Env) {
 			return it
 		}
 		pickSrc := func() string {
+			if forceSrc != "" {
+				return forceSrc
+			}
 			if e.Chance(1, 8) {
 				e.Probe("empty-source")
 				return ""
 			}
 			return sources[e.Draw(nSources)]
 		}
-		if e.Chance(1, 3) {
+		if forceSrc != "" || e.Chance(1, 3) {
 			it := mkItem(pickSrc())
 			it.isEvent = true
 			it.title = fmt.Sprintf("ev%d", it.id)
@@ -464,6 +473,59 @@ func (c11) Run(e *Env) {
 		return op
 	}
 
+	startOp := func(d int) {
+		op := genOp()
+		for _, it := range op.items {
+			if it.source == "" {
+				finalise(it, nil)
+				continue
+			}
+			pe := cache.get(gostatsd.Source(it.source))
+			if pe.hit {
+				if pe.inst != nil {
+					e.Probe("hit-with-instance")
+				} else {
+					e.Probe("negative-hit")
+				}
+				finalise(it, pe.inst)
+				continue
+			}
+			op.toPark = append(op.toPark, it)
+		}
+		bmu.Lock()
+		busy[d] = true
+		running[d] = op
+		bmu.Unlock()
+		if op.ev != nil {
+			e.Event("op event %s from %q on d%d", op.ev.Title, op.ev.Source, d)
+		} else {
+			obs, _ := Snapshot(op.mm)
+			e.Event("op metrics %s on d%d", CanonObs(obs), d)
+		}
+		work[d] <- op
+	}
+	if manyHosts {
+		// a burst of hosts never seen before, one event each, before any lookup is answered
+		e.Probe("burst-of-unknown-hosts")
+		for _, src := range sources[4:] {
+			quiesce()
+			bmu.Lock()
+			d := -1
+			for i := 0; i < nDisp; i++ {
+				if !busy[i] {
+					d = i
+					break
+				}
+			}
+			bmu.Unlock()
+			if d < 0 {
+				break
+			}
+			forceSrc = src
+			startOp(d)
+			forceSrc = ""
+		}
+	}
 	nSteps := e.Range(3, 40*e.Depth())
 	for step := 0; step < nSteps; step++ {
 		quiesce()
@@ -494,35 +556,7 @@ func (c11) Run(e *Env) {
 			yg.gate.Release(p, nil)
 		case 0: // new op on an idle dispatcher, with the cache content of this instant
 			d := idle[e.Choose("dispatcher", len(idle))]
-			op := genOp()
-			for _, it := range op.items {
-				if it.source == "" {
-					finalise(it, nil)
-					continue
-				}
-				pe := cache.get(gostatsd.Source(it.source))
-				if pe.hit {
-					if pe.inst != nil {
-						e.Probe("hit-with-instance")
-					} else {
-						e.Probe("negative-hit")
-					}
-					finalise(it, pe.inst)
-					continue
-				}
-				op.toPark = append(op.toPark, it)
-			}
-			bmu.Lock()
-			busy[d] = true
-			running[d] = op
-			bmu.Unlock()
-			if op.ev != nil {
-				e.Event("op event %s from %q on d%d", op.ev.Title, op.ev.Source, d)
-			} else {
-				obs, _ := Snapshot(op.mm)
-				e.Event("op metrics %s on d%d", CanonObs(obs), d)
-			}
-			work[d] <- op
+			startOp(d)
 		case 1: // cache content changes
 			s := sources[e.Draw(nSources)]
 			switch e.Draw(3) {
